@@ -888,7 +888,14 @@ def _numbering(ctx, fn, cfg, f3, setter, gdict):
         if not pr.conds:
             probs.append("skip loop without a test")
             continue
-        m = re.fullmatch(r"In\((\w+)~," + re.escape(gdict) + r"(?:\.keys\(\))?\)", pr.conds[0][0])
+        # `cand in groups` - possibly or-ed with memberships of the same candidate in further collections of names in use
+        from ..core.terms import _split_top as _stn
+        c0_ = pr.conds[0][0]
+        parts_ = _stn(c0_[3:-1], ",") if c0_.startswith("or(") and c0_.endswith(")") else [c0_]
+        ms_ = [re.fullmatch(r"In\((\w+)~,(.+)\)", x_) for x_ in parts_]
+        m = None
+        if all(ms_) and len({x_.group(1) for x_ in ms_}) == 1 and any(x_.group(2) in (gdict, gdict + ".keys()", f"({gdict}).keys()") for x_ in ms_):
+            m = ms_[0]
         if m is None or pr.conds[0][1] is not True:
             probs.append(f"skip loop runs while `{pr.conds[0][0]}`")
             continue
@@ -1559,6 +1566,31 @@ def rule_N7(ctx):
     nprobs = _numbering(ctx, fn, cfg, f3, setter, gdict)
     ok = not nprobs
     ctx.ob("N7", f3, "the first duplicate keeps the name, later ones get '(n)' counters that skip names already taken by another group", ok, "; ".join(dict.fromkeys(nprobs))[:300], inst="numbering")
+    # a numbered name must also differ from the numbered names other groups were given ("BEAT L" x2 and "BEAT -L" x2 both number to
+    # "BEAT (2) L"): every numbered name handed out is recorded in a collection that the skip-if-taken test consults
+    skip_tests = [w_ for w_ in ast.walk(f3) if isinstance(w_, ast.While)]
+    consulted = set()
+    for w_ in skip_tests:
+        for c_ in ast.walk(w_.test):
+            if isinstance(c_, ast.Compare) and len(c_.ops) == 1 and isinstance(c_.ops[0], ast.In):
+                r_ = c_.comparators[0]
+                if isinstance(r_, ast.Call) and isinstance(r_.func, ast.Attribute) and r_.func.attr in ("keys", "values"):
+                    r_ = r_.func.value
+                if isinstance(r_, ast.Name):
+                    consulted.add(r_.id)
+    recorded = set()
+    for c_ in ast.walk(f3):
+        if isinstance(c_, ast.Call) and isinstance(c_.func, ast.Attribute) and c_.func.attr in ("add", "append") and isinstance(c_.func.value, ast.Name) and c_.args \
+                and isinstance(c_.args[0], ast.Name):
+            recorded.add((c_.func.value.id, c_.args[0].id))
+        if isinstance(c_, ast.Assign) and len(c_.targets) == 1 and isinstance(c_.targets[0], ast.Subscript) and isinstance(c_.targets[0].value, ast.Name) \
+                and isinstance(c_.targets[0].slice, ast.Name):
+            recorded.add((c_.targets[0].value.id, c_.targets[0].slice.id))
+    set_names = {norm(c_.args[1]) for c_ in ast.walk(f3) if isinstance(c_, ast.Call) and norm(c_.func) == "f_set" and len(c_.args) == 2}
+    ok = bool(skip_tests) and any(coll in consulted and nm in set_names for coll, nm in recorded)
+    ctx.ob("N7", f3, "a numbered name also skips the numbered names already handed out to other groups at this level", ok,
+           "" if ok else f"the skip test consults {sorted(consulted)} only - the names handed out so far are not recorded: two groups whose names differ only in the separator "
+           "before L/R (\"BEAT L\" x2, \"BEAT -L\" x2) both receive \"BEAT (2) L\"", inst="numbering-unique")
     rets = [r for r in own_nodes(fn) if isinstance(r, ast.Return)]
     ok = len(rets) == 1 and norm(rets[0].value) in ("result", "elements")
     ctx.ob("N7", fn, "the routine returns the same element list (renaming in place, no element dropped)", ok, "", inst="returns-elements")
